@@ -112,6 +112,20 @@ fn main() {
                 }
                 frontier = next;
             }
+            // every scalar value below U+3100 (Latin .. CJK punctuation: all the Unicode blanks, controls, format characters
+            // and the full-width space live there), every `char::is_whitespace` / control character, and a sample of the
+            // rest: alone, and between two syntax tokens (seed C13m: a blank the lexer's own blank set does not contain)
+            for cp in 0u32..=0x10FFFF {
+                let Some(c) = char::from_u32(cp) else { continue };
+                if !(cp < 0x3100 || c.is_whitespace() || c.is_control() || cp % 257 == 0) { continue; }
+                for t in [c.to_string(), format!("a{c}1"), format!("{c}fn")] {
+                    tried += 1;
+                    if let Some(cl) = check(&t, true) {
+                        println!("FOUND src={t:?} clause={cl} tried={tried}");
+                        return;
+                    }
+                }
+            }
             println!("NONE tried={tried}");
         }
         _ => {
